@@ -28,6 +28,9 @@
 
 namespace rlbox {
 
+// set by a driver that wants to act when the back end is consulted (see impl_is_in_same_sandbox)
+inline void (*verif_backend_hook)(const char*) = nullptr;
+
 struct verif_region
 {
   uintptr_t base;
@@ -288,6 +291,9 @@ protected:
 
   static inline bool impl_is_in_same_sandbox(const void* p1, const void* p2)
   {
+    // (C09: the moment RLBox consults the back end in the middle of a range check is a moment at which the
+    //  adversary may rewrite sandbox memory)
+    if (verif_backend_hook) verif_backend_hook("be.same");
     return verif_region_of(p1) == verif_region_of(p2);
   }
 
